@@ -252,6 +252,10 @@ def run(run):
             run.guard('wrappers', wrappers, run, F, E)
             run.guard('reach rules', reach_rules, run, F, E)
             run.guard('veto takes', veto_takes, run, F)
+            # the pending transition the guards are shown is the request that was made: every writer replaces the whole request object
+            from rules import c02 as _c02
+            run.guard('request writers', _c02.request_writers, run, F, E)
+            run.relabel('C02.a', 'C03.g')
             facts.drop(F)
             cfgmod.clear_cache()
     run.floor('C03.a', 100)
@@ -259,6 +263,7 @@ def run(run):
     run.floor('C03.d', 40)
     run.floor('C03.e', 60)
     run.floor('C03.f', 16)
+    run.floor('C03.g', 8)
     run.explanation = (
         'The guard rounds are interpreted with guard results as unknown booleans (both outcomes explored at every guard, '
         'path-sensitively inside a round); observers check order, short circuit, the bindings of the guard control and that '
